@@ -16,18 +16,11 @@ def jobs():
     for d in sorted(glob.glob(str(ROOT / "seeded" / "neutral" / "C*-*"))):
         pid = os.path.basename(d).split("-")[0]
         out.append((pid, "N", "nt* " + os.path.basename(d), d + "/patch.diff"))
-    for f in sorted(glob.glob("/tmp/r2_C*/_seed/mut*.diff")):
-        pid = f.split("/")[2][3:]
-        out.append((pid, "B", f"r2 {pid}-{f[-6]}", f))
-    for f in sorted(glob.glob("/tmp/nt_C*/_seed/ref*.diff")):
-        pid = f.split("/")[2][3:]
-        out.append((pid, "N", f"nt {pid}-{f[-6]}", f))
-    for f in sorted(glob.glob("/tmp/r3_C*/_seed/mut*.diff")):
-        pid = f.split("/")[2][3:]
-        out.append((pid, "B", f"r3 {pid}-{f[-6]}", f))
-    for f in sorted(glob.glob("/tmp/n3_C*/_seed/ref*.diff")):
-        pid = f.split("/")[2][3:]
-        out.append((pid, "N", f"n3 {pid}-{f[-6]}", f))
+    # later waves still in their scratch worktrees (stored ones are replayed from seeded/)
+    for pre, kind, stem in (("r4", "B", "mut"), ("n4", "N", "ref"), ("r5", "B", "mut"), ("n5", "N", "ref")):
+        for f in sorted(glob.glob(f"/tmp/{pre}_C*/_seed/{stem}*.diff")):
+            pid = f.split("/")[2][3:]
+            out.append((pid, kind, f"{pre} {pid}-{f[-6]}", f))
     return out
 
 def run(job):
